@@ -282,6 +282,11 @@ class IncrementalExecutor(Executor[DeliveryGroupMap]):
         """
         work = self.get_incremental_work()
         if not work.tasks and not work.streams:
+            # nothing is delivered incrementally, so streams that have been
+            # created by work that failed or is settled in the background
+            # would never be cleaned up by an incremental publisher
+            for queue in self._stream_item_queues:
+                self.settle_abort_result(queue.abort())
             return super().build_response(data)
 
         errors = self.collected_errors.errors
